@@ -96,6 +96,8 @@ def _result_payload(kind: str, n: int):
         return ('small', n)
     if kind == 'multi':                     # > 64 KiB frames under pickle protocol 4/5, JSON-able
         return ['%04d' % i + 'x' * 1020 for i in range(n)]
+    if kind == 'blob':                      # one large bytes object: the pickler writes its header and its
+        return bytes(range(256)) * (4 * n)  # payload (n KiB) with separate write() calls, outside any frame
     if kind == 'unpicklable0':              # fails before anything is written
         return Unpicklable()
     if kind == 'unpicklable1':              # fails after one small frame
